@@ -104,7 +104,14 @@ func LoadClassBoards(user *ptttype.UserecRaw, uid ptttype.UID, classBid ptttype.
 			break
 		}
 
-		eachBoardStat, board, eachErr = loadClassBoardStat(user, uid, bid, false)
+		// the child's header first (bptr = getbcache(bid) in load_boards): the sibling chain
+		// goes on through board.Next also when the child is not listed.
+		board, err = cache.GetBCache(bid)
+		if err != nil {
+			return nil, err
+		}
+
+		eachBoardStat, _, eachErr = loadClassBoardStat(user, uid, bid, false)
 		if eachErr != nil {
 			continue
 		}
